@@ -69,6 +69,10 @@ SENSITIVITY = {
     "r9b": ("seeded/r9b/patch.diff", "C17", ["result-mismatch"], "B (Miri): racy row reservation of a lazily filled slope cache"),
     "r9c": ("seeded/r9c/patch.diff", "C18", ["build-invariant", "build-invoked-on-invalid-input"], "A: builder decision table, n-d data below the declared minimum"),
     "r9d": ("seeded/r9d/patch.diff", "C18", ["build-invariant", "build-invoked-on-invalid-input"], "A: builder decision table after a successful build (address reuse)"),
+    "r10a": ("seeded/r10a/patch.diff", "C17", ["result-mismatch", "entry-point-mismatch"], "A: query inside a cell, then a query exactly on the neighbouring knot line (Bilinear, f64 last bit / integers)"),
+    "r10b": ("seeded/r10b/patch.diff", "C17", ["result-mismatch", "data-race"], "B (Miri): CubicSpline segment memo whose guard releases a flag it never acquired"),
+    "r10c": ("seeded/r10c/patch.diff", "C18", ["wrong-target", "callback-invariant", "concurrent-operation-affected", "query-element-not-delivered"], "A: re-entrant n-d batch inside an n-d batch (thread-local index cursor)"),
+    "r10d": ("seeded/r10d/patch.diff", "C18", ["callback-invariant", "wrong-target"], "A: index_point on data whose trailing axes are permuted among themselves (Mix layouts)"),
 }
 # seeded/r7d is kept but not listed: its author reads C18 as forbidding one-point axes for strategies
 # with declared minimum <= 1; the statement's parenthesis does not (see seeded/r7d/meta.json, DESIGN 14.3)
